@@ -105,6 +105,11 @@ def main():
         if old and "first_result" not in meta:
             meta["first_result"] = {"at": old.get("confirmed_at"), "base_commit": old.get("base_commit"), "caught_by": old.get("caught_by")}
         meta["status"] = "active"
+        # keep the verdicts of checks that were not re-run this time (a matrix is filled over several invocations)
+        merged = dict(old.get("checks_run") or {})
+        merged.update(meta["checks_run"])
+        meta["checks_run"] = merged
+        meta["caught_by"] = sorted(k for k, c in merged.items() if c["violation"])
         json.dump(meta, open(os.path.join(dst, "meta.json"), "w"), indent=1, sort_keys=True)
         print("[%s] stored in %s ; caught_by=%s" % (sid, dst, meta["caught_by"]))
     elif not ok:
